@@ -111,13 +111,14 @@ class SendPlan(cf.Plan):
 
 
 def session(kind: str, names: list[str], stagger: int, plan: SendPlan, after: list[str], M: dict, eof_at: float | None = None,
-            timed: tuple = ()):
+            timed: tuple = (), connect: bool = True):
     plan.skip_config = kind == "waveshare"
     sess = vloop.Session(plan)
     order: list[str] = []
 
     def scenario(s: vloop.Session):
-        s.user("connect", s.client.connect)
+        if connect:
+            s.user("connect", s.client.connect)
 
         def start(name):
             order.append(name)
@@ -167,12 +168,12 @@ def session(kind: str, names: list[str], stagger: int, plan: SendPlan, after: li
     accepted = [(e["t"], e["k"]) for e in raw if e["e"] == "OpenResult" and e["r"] == "accept"]
     stale = sum(1 for e in raw if e["e"] == "Write" and not (kind == "waveshare" and len(e.get("data", [])) == 20 and e["data"][2] == 0x02)
                 and any(k > e["conn"] and t < e["t"] for t, k in accepted))
-    statuses = [e["s"] for e in raw if e["e"] == "Status"][1:]
+    statuses = [e["s"] for e in raw if e["e"] == "Status"][1 if connect else 0:]      # (after the initial CONNECTED, if any)
     opens = sum(1 for e in raw if e["e"] == "Open")
     bad = [i + 1 for i, nm in enumerate(order) if nm.startswith("bad") or kind == "actisense"]
     injected = plan.fail_write is not None or plan.fail_drain is not None or eof_at is not None
     return {"n": [len(p) for p in P], "wire": wire, "failed": sorted(set(failed)), "statuses": statuses, "opens": opens, "stale": stale,
-            "bad": bad, "clean": not injected, "complete": not injected or eof_at is not None}, order
+            "bad": bad, "clean": not injected, "complete": not injected or eof_at is not None, "allowed": 1 if connect else 0}, order
 
 
 def bind(chk: Check, tier: str, seed: int):
@@ -215,6 +216,11 @@ def bind(chk: Check, tier: str, seed: int):
                 r, order = session(kind, names, 1, plan, [], M)
                 recs.append(r)
                 meta.append((kind, "+".join(names), "drain=alt", "stagger1", "unsendable"))
+            # a client that was never connected: an unsendable message leaves it exactly so (no connection attempt, no notification)
+            for names in ([badname], [badname, badname]):
+                r, order = session(kind, names, 1, SendPlan(), [], M, connect=False)
+                recs.append(r)
+                meta.append((kind, "+".join(names), "never-connected", "stagger1", "unsendable"))
             # the unsendable message arrives while a multi-frame message is stalled between two of its frames, and another
             # sender follows: the refusal touches nothing, the lock included
             for names in (["multi", badname, "multi2"], ["multi", badname, "single"], ["multi", "multi2", badname, "single"]):
@@ -228,6 +234,9 @@ def bind(chk: Check, tier: str, seed: int):
         r, order = session("actisense", names, 0, plan, [], M)
         recs.append(r)
         meta.append(("actisense", "+".join(names), "drain=none", "stagger0", "unsendable"))
+        r, order = session("actisense", names, 0, SendPlan(), [], M, connect=False)
+        recs.append(r)
+        meta.append(("actisense", "+".join(names), "never-connected", "stagger0", "unsendable"))
     inp, outp = wd / "c19.json", wd / "c19-verdicts.json"
     inp.write_text(json.dumps(recs))
     _, v = run_trace_tlc("Trace_Send", "Trace_Send.cfg", inp, outp, name="Trace_Send")
